@@ -70,12 +70,21 @@ def tangent(env, n, ccw, end, fit, free=False):
     tx, ty = -sgn * cs[j][1], sgn * cs[j][0]            # closed-form unit tangent pointing along the arc
     dx, dy = cs[k][0] - cs[j][0], cs[k][1] - cs[j][1]    # first chord (direction only)
     versor = be.get_versor_from_vertex(vs[j].id, fit_method=fit)
+    # the same interface after its vertices were moved in place (as TimeSeries does with cm=True): nothing may be cached
+    ta, tb = env.real("move_a"), env.real("move_b")
+    for v in vs:
+        v.x = v.x + ta
+        v.y = v.y + tb
+    stubs.register_circle(vs, ox + ta, oy + tb, r)
+    versor_moved = be.get_versor_from_vertex(vs[j].id, fit_method=fit)
     mism_x = (tx != 0) & (((dx >= 0) & (tx < 0)) | ((dx < 0) & (tx > 0)))
     mism_y = (ty != 0) & (((dy >= 0) & (ty < 0)) | ((dy < 0) & (ty > 0)))
     region = mism_x | mism_y
     good = env.eq(versor[0], tx) & env.eq(versor[1], ty)
     return [Ob("versor-is-outward-unit-tangent", good, finding="tangent_chord_quadrant_mismatch", region=region),
             Ob("versor-has-unit-norm", env.eq(versor[0] * versor[0] + versor[1] * versor[1], 1)),
+            Ob("versor-unchanged-after-the-vertices-were-translated-in-place",
+               env.eq(versor_moved[0], versor[0]) & env.eq(versor_moved[1], versor[1])),
             Ob("versor-parallel-to-tangent", env.eq(versor[0] * ty - versor[1] * tx, 0),
                finding="tangent_chord_quadrant_mismatch", region=region)]
 
